@@ -148,8 +148,14 @@ func (c *LexCase) Exec(t *eng.T) {
 			t.Fail("lex-error:filename", "lexer error for %q names %q instead of the template", src, err.Filename)
 		}
 		if err.Line > 0 {
-			if _, ok := offsetOf(src, err.Line, err.Column); !ok {
+			off, ok := offsetOf(src, err.Line, err.Column)
+			if !ok {
 				t.Fail("lex-error:position-outside-source", "lexer error for %q at line %d col %d, outside the source (%v)", src, err.Line, err.Column, err.OrigError)
+			} else if msg := fmt.Sprint(err.OrigError); strings.Contains(msg, "string not closed") || strings.Contains(msg, "Unknown escape sequence") || strings.Contains(msg, "Newline in string") {
+				// errors of a string literal are reported at the literal (its opening quotation mark)
+				if off >= len(src) || (src[off] != '"' && src[off] != '\'') {
+					t.Fail("lex-error:string-literal-position", "lexer error for %q (%v) at line %d col %d, which is not the quotation mark the literal starts with", src, err.OrigError, err.Line, err.Column)
+				}
 			}
 		}
 		return
